@@ -17,7 +17,8 @@
 (* response PID for consecutive requests (regression config: must fail).          *)
 EXTENDS Integers, Sequences, FiniteSets, TLC, Json
 
-CONSTANTS NReq, MaxReplies, MaxOps, FixedPid, UnregOnTimeoutOnly, AllowBlocking, Export
+CONSTANTS NReq, MaxReplies, MaxOps, FixedPid, UnregOnTimeoutOnly, AllowBlocking, Export,
+          ZeroFrom     \* requests numbered ZeroFrom and above are issued with a timeout of zero (a used-up budget)
 
 Reqs == 1..NReq
 VARIABLES requested, registered, buf, waiting, started, outcome, replies, blocked, dead, nops, hist
@@ -38,9 +39,10 @@ Finish(r, res, regB) ==
   /\ outcome' = [outcome EXCEPT ![r] = res]
   /\ registered' = IF UnregOnTimeoutOnly /\ res # <<-1, -1>> THEN regB ELSE [regB EXCEPT ![PidOf(r)] = IF @ = r THEN 0 ELSE @]
 
+ZeroT(r) == r >= ZeroFrom
 Req(r) ==
   /\ ~requested[r] /\ \A q \in 1..(r - 1) : requested[q]
-  /\ Op([op |-> "req", r |-> r, ret |-> <<>>, blk |-> FALSE])
+  /\ Op([op |-> IF ZeroT(r) THEN "req0" ELSE "req", r |-> r, ret |-> <<>>, blk |-> FALSE])
   /\ requested' = [requested EXCEPT ![r] = TRUE]
   /\ registered' = [registered EXCEPT ![PidOf(r)] = IF @ = 0 THEN r ELSE @]       \* Registry.add: a taken id is left alone
   /\ UNCHANGED <<buf, waiting, started, outcome, replies, blocked, dead>>
@@ -71,8 +73,17 @@ Reply(r) ==
              /\ UNCHANGED <<buf, waiting, outcome, registered, dead>>
   /\ UNCHANGED <<requested, started>>
 
+(* Result() of a request with timeout zero and no reply in the channel: the error at once, and the response PID is gone
+   like after any other return (with a reply already waiting both branches of the select are ready: not generated) *)
+ResStartZero(r) ==
+  /\ requested[r] /\ ~started[r] /\ ZeroT(r) /\ buf[r] = <<>>
+  /\ Op([op |-> "result", r |-> r, ret |-> <<r>>, blk |-> FALSE])
+  /\ started' = [started EXCEPT ![r] = TRUE]
+  /\ Finish(r, <<-1, -1>>, registered)
+  /\ UNCHANGED <<requested, buf, waiting, replies, blocked, dead>>
+
 ResStart(r) ==
-  /\ requested[r] /\ ~started[r]
+  /\ requested[r] /\ ~started[r] /\ ~ZeroT(r)
   /\ Op([op |-> "result", r |-> r, ret |-> IF buf[r] # <<>> THEN <<r>> ELSE <<>>,
          \* blk: a reply stuck on this request's channel gets through now
          blk |-> buf[r] # <<>> /\ blocked # None /\ registered[PidOf(blocked[1])] = r])
@@ -110,7 +121,7 @@ Elapse ==
   /\ Op([op |-> "elapse", r |-> 0, ret |-> <<>>, blk |-> FALSE])
   /\ UNCHANGED <<requested, registered, buf, waiting, started, outcome, replies, blocked, dead>>
 
-Next == TimeoutAll \/ Elapse \/ \E r \in Reqs : Req(r) \/ Reply(r) \/ ResStart(r)
+Next == TimeoutAll \/ Elapse \/ \E r \in Reqs : Req(r) \/ Reply(r) \/ ResStart(r) \/ ResStartZero(r)
 Spec == Init /\ [][Next]_vars
 
 (* ---------------------------------------------------------------- properties (C11) *)
